@@ -257,6 +257,12 @@ func checkC02(c *core.Ctx) {
 	c.Set("rule", "function definitions are enumerated by the choice-tree explorer: 0..n annotated parameters over 9 types, a result type, and every body with exactly k constructs of the inference alphabet that uses every parameter; for every definition every subset of parameter annotations is erased (variants); an independent Hindley-Milner inference (library signatures read from the working tree's pkg/pkg_all.foi) gives each variant's principal type; distinct = distinct variant text; non-trivial = at least one annotation erased")
 	c.Assumption("variants outside the documentation's inference promises are skipped and counted: an un-annotated parameter used as match target / field-access target / && || not operand, arithmetic or ordering on a type that stays undetermined, a type variable not reachable from the signature, constructs the reference inference does not model (_.Field)")
 	c.Assumption("oracles: (a) the emitted func signature (go/parser, go/types.ExprString) equals the reference principal type with type parameters T0.. numbered by first occurrence in the parameters then the result, constraint any; (b) variants whose principal type equals the fully annotated one are emitted byte-identically (modulo the function name); (c) every variant compiles (go build of the batch, offenders re-built alone)")
+	// first the small hand-kept families (a deadline then cuts only the tail of the big enumerations)
+	// hand corpus: more than 10 type variables (_T10 sorts before _T9)
+	c02Corpus(c, sc, fc, foi)
+	c02ExternalGenerics(c, sc, fc, foi)
+	c02ResultFirst(c, sc, fc, foi)
+	c02FieldAccess(c, sc, fc, foi)
 	type plan struct{ k, maxParams int }
 	plans := []plan{{0, 2}, {1, 2}}
 	if c.Thorough() {
@@ -320,11 +326,6 @@ func checkC02(c *core.Ctx) {
 		c02Graphs(c, sc, fc, foi, &seq)
 	}
 	c.Set("max_params", maxParams)
-	// hand corpus: more than 10 type variables (_T10 sorts before _T9)
-	c02Corpus(c, sc, fc, foi)
-	c02ExternalGenerics(c, sc, fc, foi)
-	c02ResultFirst(c, sc, fc, foi)
-	c02FieldAccess(c, sc, fc, foi)
 }
 
 // c02Graphs enumerates functions `let f p0 .. p(n-1) (n:int) = let s0 = R0 ; let s1 = R1 ; let s2 = R2 ; (s0, s1, s2)`
@@ -876,6 +877,16 @@ func c02Corpus(c *core.Ctx, sc *impl.Scratch, fc string, foi string) {
 		{Name: "f_900006", Params: []fo.Param{{Name: "s"}}, Body: fo.B(fo.App{Fn: "slice.Item", Args: []fo.Expr{fo.IntLit{V: 2}, V("s")}})},
 		{Name: "f_900007", Params: []fo.Param{{Name: "a"}}, Body: fo.B(fo.BinOp{Op: "+", L: V("a"), R: fo.IntLit{V: 10}})},
 		{Name: "f_900008", Params: []fo.Param{{Name: "f"}, {Name: "xs"}}, Body: fo.B(fo.BinOp{Op: "|>", L: fo.App{Fn: "slice.Map", Args: []fo.Expr{V("f"), V("xs")}}, R: V("slice.Length")})},
+		// inner binders with the NAME of an un-annotated parameter (after seeds C02j / C03h / C09i: a scope that outlives its
+		// construct): the parameter stays as general as the body leaves it, whatever the inner binder is unified with
+		{Name: "f_900009", Params: []fo.Param{{Name: "x"}, {Name: "ys"}}, Body: &fo.Block{Stmts: []fo.Stmt{fo.Let{Name: "zs", Rhs: fo.App{Fn: "slice.Map", Args: []fo.Expr{fo.Lambda{Params: []fo.Param{{Name: "x"}}, Body: fo.B(fo.BinOp{Op: "+", L: V("x"), R: fo.IntLit{V: 1}})}, V("ys")}}}},
+			Final: T(V("x"), V("zs"))}},
+		{Name: "f_900010", Params: []fo.Param{{Name: "x"}, {Name: "u", Type: "U"}}, Body: &fo.Block{Stmts: []fo.Stmt{fo.Let{Name: "m", Rhs: fo.Match{Target: V("u"), Arms: []fo.Arm{{Case: "I", Bind: "x", Body: fo.B(fo.BinOp{Op: "+", L: V("x"), R: fo.IntLit{V: 1}})}, {Case: "S", Bind: "_", Body: fo.B(fo.IntLit{V: 0})}, {Case: "N", Body: fo.B(fo.IntLit{V: 2})}}}}},
+			Final: T(V("x"), V("m"))}},
+		{Name: "f_900011", Params: []fo.Param{{Name: "x"}, {Name: "y"}}, Body: &fo.Block{Stmts: []fo.Stmt{fo.LetFun{Name: "g", Params: []fo.Param{{Name: "x", Type: "int"}}, Body: fo.B(fo.BinOp{Op: "+", L: V("x"), R: fo.IntLit{V: 1}})}, fo.Let{Name: "m", Rhs: fo.App{Fn: "g", Args: []fo.Expr{fo.IntLit{V: 1}}}}},
+			Final: T(V("x"), V("y"), V("m"))}},
+		{Name: "f_900012", Params: []fo.Param{{Name: "x"}, {Name: "s", Type: "string"}}, Body: &fo.Block{Stmts: []fo.Stmt{fo.Let{Name: "m", Rhs: fo.SMatch{Target: V("s"), Lits: []fo.SArm{{Lit: "a", Body: fo.B(fo.StrLit{V: "A"})}}, VarName: "x", Last: fo.B(fo.BinOp{Op: "+", L: V("x"), R: fo.StrLit{V: "!"}})}}},
+			Final: T(V("x"), V("m"))}},
 	}
 	env := &gobatch.Env{Sc: sc, FC: fc, FCArgs: []string{sc.PkgAllFoi()}, Prelude: fo.Prelude, NoRunMain: true}
 	gens := map[string][2]string{}
